@@ -188,7 +188,9 @@ def do_comp(ex, node, st, kind):
         src = None
     if dv is not None:
         d, how = dv
-        c = z3.Const(S.fresh_name("kc"), S.PyStr)
+        # canonical bound variable not occurring in the source (identical comprehensions give identical terms; nesting is capture-free
+        # because an inner comprehension's source mentions the outer variable and therefore picks the next one)
+        c = S.bound_var(*( [d.term] if how == "set" else [d.keys, d.vals] ), *[v_.term for v_ in st.env.values() if hasattr(v_, "term") and isinstance(getattr(v_, "term", None), z3.ExprRef) and isinstance(v_, VStr)])
         dom = d.term[c] if how == "set" else d.keys[c]
         s2 = State(dict(st.env), st.pc + [dom], st.facts)
         key = VStr(c)
@@ -208,11 +210,9 @@ def do_comp(ex, node, st, kind):
                 if isinstance(kx, VStr) and kx.term.eq(c) and isinstance(vx, VNum):
                     # {c: f(c, v) for c, v in d.items() if cond}: same keys filtered, values mapped
                     keep = z3.And(dom, *conds) if conds else dom
-                    nk = z3.Const(S.fresh_name("dkeys"), S.CSetS)
-                    nv = z3.Const(S.fresh_name("dvals"), S.RMapS)
-                    st.facts.append(nk == z3.Lambda([c], keep))
                     from .core import to_real
-                    st.facts.append(nv == z3.Lambda([c], to_real(vx)))
+                    nk = z3.Lambda([c], keep)
+                    nv = z3.Lambda([c], to_real(vx))
                     vsort = S.Real if vx.kind == "real" else (S.Int if vx.kind == "int" else S.Float)
                     return VDict(nk, nv, S.Real if vsort is S.Int else vsort)
                 raise OutOfReach("dict comprehension shape over dict view")
@@ -222,15 +222,13 @@ def do_comp(ex, node, st, kind):
         if kind == "gen":
             return GenSet(c, z3.And(dom, *conds) if conds else dom, body)
         if kind == "set" and isinstance(body, VStr) and body.term.eq(c):
-            r = z3.Const(S.fresh_name("fset"), S.CSetS)
-            st.facts.append(r == z3.Lambda([c], z3.And(dom, *conds) if conds else dom))
+            r = z3.Lambda([c], z3.And(dom, *conds) if conds else dom)
             ex.card_of(st, r)
             return VSet(r)
         if kind == "list" and isinstance(body, VStr) and body.term.eq(c):
             # [c for c in s if cond]: its order is the set's iteration order; only order-free consumers
             # (frozenset / set / len) accept the value
-            r = z3.Const(S.fresh_name("fset"), S.CSetS)
-            st.facts.append(r == z3.Lambda([c], z3.And(dom, *conds) if conds else dom))
+            r = z3.Lambda([c], z3.And(dom, *conds) if conds else dom)
             ex.card_of(st, r)
             return VSetList(VSet(r))
         raise OutOfReach("list comprehension over a set/dict (order-dependent)")
